@@ -1300,7 +1300,8 @@ class Evaluator:
             if isinstance(n, ast.BinOp):
                 return isinstance(n.op, (ast.Add, ast.Sub, ast.Mult, ast.BitAnd, ast.BitOr, ast.BitXor))
             return isinstance(n, ast.Call) and isinstance(n.func, ast.Name) and n.func.id == "len" and "len" not in pre_env and self.prog.resolve_chain(fr.modname, ["len"]) is None
-        _calls_made = [c_ for c_ in fr.summary.calls[marks0[0]:] if not (_value_errors_only and c_[0] in ("builtins.len", "builtins.isinstance", "builtins.type"))]
+        _calls_made = [c_ for c_ in fr.summary.calls[marks0[0]:] if not (_value_errors_only and c_[0] in ("builtins.len", "builtins.isinstance", "builtins.type"))
+                       and not (c_[0] == "builtins.getattr" and id(c_[3]) in self.__dict__.get("_inert_calls", ()))]
         body_inert = not _calls_made and len(fr.summary.hazards) == marks0[1] and not any(
             isinstance(n, (ast.Call, ast.BinOp, ast.Attribute, ast.Await, ast.Yield)) and id(n) not in self.__dict__.get("_inert_calls", ()) and not _global_ref(n) and not _type_error_at_most(n)
             for b in st.body for n in ast.walk(b))
@@ -1346,10 +1347,24 @@ class Evaluator:
             del fr.summary.exits[k0:]
             return fh, hd, hexits
 
+        def _transparent(h):
+            # `except X: raise`, possibly after logging calls: the exception leaves the statement as it would without it, and
+            # exceptions of primitives are not exits of a function without a try statement either
+            if not (h.body and isinstance(h.body[-1], ast.Raise) and h.body[-1].exc is None):
+                return False
+            for b in h.body[:-1]:
+                f_ = b.value.func if isinstance(b, ast.Expr) and isinstance(b.value, ast.Call) else None
+                root = f_.value if isinstance(f_, ast.Attribute) else f_
+                if not (isinstance(root, ast.Name) and root.id in ("log", "logger", "logging", "print", "_log", "LOG")):
+                    return False
+            return True
+
         for h, names in handled:
             if body_inert:
                 break
             if no_implicit_assert and all(n == "AssertionError" for n in names):
+                continue
+            if _transparent(h):
                 continue
             g = T("except", (tuple(names), _try_key(st)), tm.BOOL)
             fh, hd, hexits = run_handler(h, names, [g], [])
@@ -4094,6 +4109,8 @@ class Evaluator:
                 v = self.getattr_value(a0, pos[1])
                 if isinstance(v, T) and v.op == "raise" and len(pos) > 2:
                     return pos[2]
+                if e is not None and isinstance(a0, T) and a0.op == "modref" and tm.is_conc(v) and not isinstance(v, (T, _Obj)):
+                    self.__dict__.setdefault("_inert_calls", set()).add(id(e))  # a module constant looked up by a known name: raised nothing
                 return v
             return T("getattr", tuple(tm._fz(p) for p in pos))
         if n == "dir" and isinstance(a0, T) and a0.op == "modref" and a0.args[0] in self.prog.modules:
